@@ -427,6 +427,7 @@ func runC08(w *World, r *Report) {
 	r.rule("no-send-on-stop", "no send on the stop channel of a stream whose producer closes it (send after close panics; a send does not release a parked producer)", 0)
 	r.rule("reentry-under-ledger-lock", "a consumption region that re-enters the graph lock holds the ledger lock, so no graph writer can queue between producer and consumer", 3)
 	r.rule("graph-writers-under-ledger-lock", "every call that takes the graph lock exclusively holds AccountingBook.mux exclusively", 6)
+	r.rule("no-graph-writer-inside-walk", "while a walk of the graph is being consumed (the producer holds the graph lock in read mode) the consumer — its loop, the helpers it calls, the callbacks it is handed — never asks for the graph lock in write mode", 3)
 	r.rule("no-foreign-blocking-op", "no blocking channel operation on another channel inside a consumption region or while a repo lock is held, unless it is a select with a ctx.Done()/default arm", 0)
 
 	acctFns := w.RepoFuncs("accountant")
@@ -604,6 +605,57 @@ func runC08(w *World, r *Report) {
 			addRegion(fn, data, 2)
 			_ = recvs
 			reenters := false
+			// while the producer holds the graph lock in read mode, a consumer that asks for it in WRITE mode waits for the
+			// producer, which waits for the consumer: the walk never ends. Calls made by the region itself, by repo helpers it
+			// calls and by callbacks it is handed are all "the consumer".
+			graphWriter := func(ci ssa.CallInstruction) bool { return takers[calleeName(ci)] == "W" }
+			writerIn := func(body *ssa.Function) (ssa.CallInstruction, bool) {
+				for _, d := range deepCalls(body, graphWriter, 1) {
+					return d.c, true
+				}
+				return nil, false
+			}
+			nWriterSites := 0
+			for b, data := range region {
+				for _, in := range b.Instrs {
+					if x, ok := in.(*ssa.Call); ok {
+						if graphWriter(x) {
+							nWriterSites++
+							r.bad("no-graph-writer-inside-walk", site+"/"+shortCallee(x), lineOf(w, x), "no call that takes the graph lock exclusively while a walk of the graph is being consumed", "the walker holds "+st.Lock+" until it is drained; "+shortCallee(x)+" waits for it for ever")
+						}
+						if cal := x.Call.StaticCallee(); cal != nil && isRepoFunc(cal) && len(cal.Blocks) > 0 {
+							if wc, found := writerIn(cal); found {
+								nWriterSites++
+								r.bad("no-graph-writer-inside-walk", site+"/"+shortCallee(x)+"→"+shortCallee(wc), lineOf(w, wc), "no call that takes the graph lock exclusively while a walk of the graph is being consumed", "reached from the consumption loop through "+shortCallee(x))
+							}
+						}
+						// a callback handed to this function and called from the region: look at what every caller passes
+						if prm, isParam := x.Call.Value.(*ssa.Parameter); isParam {
+							host := b.Parent()
+							for k, p2 := range host.Params {
+								if p2 != prm {
+									continue
+								}
+								for _, cs := range staticCallers(w, host) {
+									if k >= len(cs.Common().Args) {
+										continue
+									}
+									if body, _, _, _ := callbackBody(cs.Common().Args[k]); body != nil {
+										if wc, found := writerIn(body); found {
+											nWriterSites++
+											r.bad("no-graph-writer-inside-walk", shortFn(cs.Parent())+"/callback/"+shortCallee(wc), lineOf(w, wc), "a callback run for every walked vertex takes no exclusive graph lock", "the callback passed at "+lineOf(w, cs)+" calls "+shortCallee(wc)+" while the walker holds "+st.Lock)
+										}
+									}
+								}
+							}
+						}
+					}
+					_ = data
+				}
+			}
+			if nWriterSites == 0 {
+				r.ok("no-graph-writer-inside-walk", site, lineOf(w, c), "the consumption of this walk takes no exclusive graph lock")
+			}
 			for b, data := range region {
 				for _, in := range b.Instrs {
 					switch x := in.(type) {
